@@ -109,6 +109,7 @@ type Exec struct {
 	joins            []joinRec
 	splitObligations []splitOb
 	digitAtoms       []*smt.Term
+	jsonEqDepth      int
 	bech32Atoms      []*smt.Term
 	viewAtoms        []viewAtom
 	keyPairs         []*smt.Term
